@@ -27,6 +27,23 @@ HOOKS = ("parse_query", "parse_range")
 CATCH_ALL = ("Exception", "BaseException", "*")
 
 
+def _hosts_of_new_helper(prog, f):
+    """the functions that call f, when f is a private function the reference inventory does not have (an extracted block)"""
+    from .. import inline
+    inv = inline.inventory()
+    if not inv or f.qualname in inv or not f.name.startswith("_") or f.name.startswith("__"):
+        return []
+    hosts = []
+    for g in prog.functions.values():
+        if g is f or g.module is not f.module:
+            continue
+        for x in ast.walk(g.node):
+            if (isinstance(x, ast.Attribute) and x.attr == f.name) or (isinstance(x, ast.Name) and x.id == f.name):
+                hosts.append(g)
+                break
+    return hosts
+
+
 def _exc_name(raise_node):
     e = raise_node.exc
     if e is None:
@@ -88,9 +105,16 @@ def c16_r1(ctx):
             if nm is None:
                 continue  # bare re-raise inside a handler
             ok = nm == "QueryParserError" or (f.short, nm) in REVIEWED_RAISES
+            why = REVIEWED_RAISES.get((f.short, nm), "")
+            if not ok:
+                # the reviewed check moved, with the block around it, into a new private helper of the same function
+                hosts = _hosts_of_new_helper(prog, f)
+                if hosts and all((h.short, nm) in REVIEWED_RAISES for h in hosts):
+                    ok = True
+                    why = "in a new private helper called only from %s: %s" % (", ".join(h.short for h in hosts), REVIEWED_RAISES[(hosts[0].short, nm)])
             ctx.saw(f)
             ctx.ob(f, ok, "raise %s" % nm,
-                   detail=REVIEWED_RAISES.get((f.short, nm), "") if ok else "a non-parser exception can escape QueryParser.parse()",
+                   detail=why if ok else "a non-parser exception can escape QueryParser.parse()",
                    loc=ctx.nodeloc(f, r))
     for (fn, nm) in REVIEWED_RAISES:
         if not prog.has_func(fn):
